@@ -81,6 +81,10 @@ def enum_cases():
                 for pos in (0, 5):
                     yield case(binenc(lookup(ent)), env_len(raw), pkt, pos)
                     yield case(strenc(lookup(ent)), env_len(raw), pkt, pos)
+                # the same type object first decodes a packet with another reference value: every ordered pair
+                for before in range(0, 4):
+                    yield dict(case(binenc(lookup(ent)), env_len(raw), pkt, 0), pre=[env_len(before)])
+                    yield dict(case(strenc(lookup(ent)), env_len(raw), pkt, 0), pre=[env_len(before), env_len((before + 1) % 4)])
     # leading size tags: valid sizes, not a multiple of 8, larger than the buffer; unaligned tags
     for tag in (3, 8, 16):
         for size in (0, 8, 16, 24, 12, 64):
@@ -187,6 +191,7 @@ def run(ctx):
                 "calibrated, with zero/negative adjustments) / looked-up lengths with reference values 0..5, and (B) random buffers up to "
                 "2 kB in all supported character encodings. Each case is decoded by the real parse_value (constructors and XML, explicit / "
                 "omitted defaults); Trace_StrBin compares raw buffer, text bytes (re-encoded), cursor advance and error outcome. "
+                "One type object per (encoding, route) decodes all its cases in sequence (history independence). "
                 "distinct = (encoding, environment, packet, offset, route).")
     ctx.assumptions = ["Python's codecs applied to the byte slice chosen by the specification are trusted; plain UTF-16/UTF-32 with a "
                        "byteOrder attribute are not generated", "zero-length strings, non-integral or negative computed lengths and reads "
@@ -196,16 +201,29 @@ def run(ctx):
     rng = ctx.rng
     rcases = [rand_case(rng) for _ in range(2500 if q else 40000)]
     lines = []
+    shared, hist = {}, {}
     for i, c in enumerate(cases + rcases):
         routes = [("ctor", False), ("xml", False), ("xml", True)]
         if q or i >= len(cases):
             routes = [routes[i % 3]]
         for via, od in routes:
-            obs = strbin.observe(c["enc"], c["env"], c["pkt"], c["pos"], via, od)
+            # one type object per (encoding, route) decodes all of its cases one after the other, as a loaded definition does for
+            # the packets of a stream: what an earlier packet was must not matter
+            if c.get("pre"):
+                own = {}
+                for env0 in c["pre"]:
+                    strbin.observe(c["enc"], env0, c["pkt"], c["pos"], via, od, shared=own)
+                obs = strbin.observe(c["enc"], c["env"], c["pkt"], c["pos"], via, od, shared=own)
+                obs.pop("note", None)
+                lines.append(dict(c, obs=obs, via=via + ("-defaults-omitted" if od else ""), src="A", nprev=len(c["pre"])))
+                continue
+            obs = strbin.observe(c["enc"], c["env"], c["pkt"], c["pos"], via, od, shared=shared)
             obs.pop("note", None)
-            lines.append(dict(c, obs=obs, via=via + ("-defaults-omitted" if od else ""), src="A" if i < len(cases) else "B"))
+            h = hist.setdefault((json.dumps(c["enc"], sort_keys=True), via, od), [])
+            lines.append(dict(c, obs=obs, via=via + ("-defaults-omitted" if od else ""), src="A" if i < len(cases) else "B", nprev=len(h)))
+            h.append(len(lines) - 1)
     for ln in lines:
-        ctx.count((ln["src"], ln["via"], repr(ln["enc"]), repr(ln["env"]), bytes(ln["pkt"]), ln["pos"]))
+        ctx.count((ln["src"], ln["via"], repr(ln["enc"]), repr(ln["env"]), bytes(ln["pkt"]), ln["pos"], repr(ln.get("pre"))))
     rej = tables.validate_lines(ctx, "Trace_StrBin", lines, "strbin", jobs=16)
     for idx, clause in rej.items():
         ln = lines[idx]
@@ -219,8 +237,22 @@ def run(ctx):
                 ctx.tally("legitimate_decode_errors")
                 continue            # the bytes the specification selects are not valid in the codec: an error is right
         sig = f"C07/{enc['k']}/{enc['len']['k']}/{enc['delim']['k']}/{clause[0]}/{ln['obs']['k']}"
-        ctx.violation(sig, f"encoding {enc} env {ln['env']} pos {ln['pos']} pkt[:24] {ln['pkt'][:24]} via {ln['via']}: real {str(ln['obs'])[:300]}, "
-                      f"specification {clause[1][:300]}", {k: ln[k] for k in ("enc", "env", "pkt", "pos", "via")})
+        payload = {k: ln[k] for k in ("enc", "env", "pkt", "pos", "via")}
+        if ln["nprev"]:
+            # does a fresh object decode it as specified? then what the same object decoded before is what matters
+            via, od = ln["via"].split("-")[0], "omitted" in ln["via"]
+            fresh = strbin.observe(enc, ln["env"], ln["pkt"], ln["pos"], via, od)
+            fresh.pop("note", None)
+            if fresh != ln["obs"]:
+                sig += "/depends-on-earlier-packets"
+                if ln.get("pre"):
+                    payload["history"] = [{"env": e0, "pkt": ln["pkt"], "pos": ln["pos"]} for e0 in ln["pre"]]
+                else:
+                    h = hist[(json.dumps(enc, sort_keys=True), via, od)]
+                    payload["history"] = [{k: lines[j][k] for k in ("env", "pkt", "pos")} for j in h[:h.index(idx)]][-40:]
+        ctx.violation(sig, f"encoding {enc} env {ln['env']} pos {ln['pos']} pkt[:24] {ln['pkt'][:24]} via {ln['via']}"
+                      f"{' (same type object, after ' + str(ln['nprev']) + ' earlier cases)' if ln['nprev'] else ''}: real {str(ln['obs'])[:300]}, "
+                      f"specification {clause[1][:300]}", payload)
     ctx.exhaustive = True
     ctx.extra["lines"] = len(lines)
     oc = {}
@@ -236,7 +268,10 @@ def run(ctx):
 
 def replay(ctx, obj):
     via = obj.get("via", "ctor")
-    obs = strbin.observe(obj["enc"], obj["env"], obj["pkt"], obj["pos"], via.split("-")[0], "omitted" in via)
+    shared = {}
+    for h in obj.get("history", []):
+        strbin.observe(obj["enc"], h["env"], h["pkt"], h["pos"], via.split("-")[0], "omitted" in via, shared=shared)
+    obs = strbin.observe(obj["enc"], obj["env"], obj["pkt"], obj["pos"], via.split("-")[0], "omitted" in via, shared=shared)
     print("observed:", obs)
     obs.pop("note", None)
     rej = tables.validate_lines(ctx, "Trace_StrBin", [dict(obj, obs=obs)], "replay", jobs=1)
